@@ -2,6 +2,7 @@ use std::borrow::Cow;
 use std::collections::HashSet;
 use std::sync::OnceLock;
 
+use itertools::Itertools;
 use regex::Regex;
 
 use super::{WriteOpt, WriteSource};
@@ -159,7 +160,8 @@ impl WriteSource for pr::ExprKind {
                 r += opt.consume(&name)?;
                 opt.unbound_expr = true;
 
-                for (name, arg) in &func_call.named_args {
+                // sorted, so that the output does not depend on hash-map iteration order
+                for (name, arg) in func_call.named_args.iter().sorted_by_key(|(k, _)| *k) {
                     r += opt.consume(" ")?;
 
                     r += opt.consume(name)?;
